@@ -21,9 +21,11 @@ def is_scoped_template(template_typenames: Sequence[str],
     and if so, return what template from `template_typenames` and
     the corresponding index matches the scoped template correctly.
     """
+    # Only the leading component of a scoped name can be a template parameter:
+    # in `ns::T`, `T` is a name declared in `ns`, not the parameter.
     for idx, template in enumerate(template_typenames):
         if "::" in str_arg_typename and \
-            template in str_arg_typename.split("::"):
+            template == str_arg_typename.split("::")[0]:
             return template, idx
     return False, -1
 
@@ -65,12 +67,13 @@ def instantiate_type(
                     instantiations[template_idx]
             else:
                 # scoped use inside the arguments, e.g. vector<T::Value>
-                instantiation.namespaces = [
-                    instantiations[template_typenames.index(
-                        namespace)].to_cpp()
-                    if namespace in template_typenames else namespace
-                    for namespace in instantiation.namespaces
-                ]
+                if instantiation.namespaces and \
+                        instantiation.namespaces[0] in template_typenames:
+                    template_idx = template_typenames.index(
+                        instantiation.namespaces[0])
+                    instantiation.namespaces = [
+                        instantiations[template_idx].to_cpp()
+                    ] + instantiation.namespaces[1:]
                 instantiate_template_args(instantiation)
 
     instantiate_template_args(ctype.typename)
@@ -99,8 +102,7 @@ def instantiate_type(
                 inst.to_cpp() for inst in instantiation.instantiations))
             instantiation.instantiations = []
         instantiation.name = "::".join(
-            scope if part == scoped_template else part
-            for part in str_arg_typename.split("::"))
+            [scope] + str_arg_typename.split("::")[1:])
         return parser.Type(
             typename=instantiation,
             is_const=ctype.is_const,
